@@ -9,6 +9,7 @@ import PraatModel.RunExtract
 import PraatModel.RunZero
 import PraatModel.RunIO
 import PraatModel.RunScripts
+import PraatModel.RunImperative
 
 /-! # line interpreter: one operation per line, one canonical output line -/
 
@@ -199,6 +200,9 @@ def runOp (op : String) : P String := do
     | some p => p
     | none =>
     match runOpScripts α op with
+    | some p => p
+    | none =>
+    match runOpImperative α op with
     | some p => p
     | none => throw s!"unknown op {op}"
 where
